@@ -136,8 +136,27 @@ def recheck_theorems(prop_file):
     return ok, theorems, closed, axioms, text
 
 
-def run_model(entry, inputs, timeout=900):
-    """inputs: list of python sx values; returns list of decoded results"""
+def run_model(entry, inputs, timeout=1800):
+    """inputs: list of python sx values; returns list of decoded results.  Every line is evaluated on its own (the runner keeps
+    no state between lines), so a long list is cut into contiguous chunks evaluated by several runner processes."""
+    jobs = int(os.environ.get("VERIF_JOBS", "12"))
+    if len(inputs) >= 400 and jobs > 1:
+        from concurrent.futures import ThreadPoolExecutor
+        n = min(jobs, len(inputs) // 100)
+        size = (len(inputs) + n - 1) // n
+        chunks = [inputs[i:i + size] for i in range(0, len(inputs), size)]
+        with ThreadPoolExecutor(max_workers=len(chunks)) as ex:
+            parts = list(ex.map(lambda ch: run_model_chunk(entry, ch, timeout), chunks))
+        res = []
+        for r, e in parts:
+            if r is None:
+                return None, e
+            res += r
+        return res, None
+    return run_model_chunk(entry, inputs, timeout)
+
+
+def run_model_chunk(entry, inputs, timeout):
     exe = os.path.join(RUNNER, "modelrun")
     data = "\n".join(sxp.dumps([entry, x]) for x in inputs) + "\n"
     def big_stack():
@@ -408,6 +427,17 @@ def run_prop(prop, tier, seed, replay=None):
         obs = run_impl_shard(prop.impl_module, cases, 900, prop.per_case_timeout, "replay")     # one process, in order
     else:
         obs = run_impl(prop.impl_module, cases, per_case=prop.per_case_timeout) if cases else []
+        # a case that ran out of time next to eleven other busy processes is run once more, alone and with three
+        # times the budget, before it is believed: a hang of the library shows again, a starved process does not
+        slow = [i for i, o in enumerate(obs) if isinstance(o, dict) and o.get("status") == "hang"]
+        if slow and len(slow) <= 200:
+            obs3 = run_impl_shard(prop.impl_module, [cases[i] for i in slow], 1800, prop.per_case_timeout * 3, "retry")
+            back = 0
+            for i, o in zip(slow, obs3):
+                if not (isinstance(o, dict) and o.get("status") == "hang"):
+                    obs[i] = o
+                    back += 1
+            res.notes.append("%d cases ran out of time in the sharded run; re-run alone: %d still do" % (len(slow), len(slow) - back))
     mouts = None
     if model_ok and cases:
         def minput(c, o):
